@@ -1,6 +1,7 @@
 package simpg
 
 import (
+	"fmt"
 	"math"
 	"math/big"
 	"reflect"
@@ -213,6 +214,37 @@ func isNumericKind(t *Type) bool { return t != nil && category(t) == "n" }
 
 // fromCols computes the columns a FROM item offers.
 func (a *analyzer) fromCols(fi *fromItem, outer *scope) ([]colDesc, *pgErr) {
+	if fi.values != nil {
+		n := len(fi.values[0])
+		out := make([]colDesc, n)
+		for r, row := range fi.values {
+			if len(row) != n {
+				return nil, errf("42601", "VALUES lists must all be the same length")
+			}
+			for i, e := range row {
+				t, err := a.expr(e, outer)
+				if err != nil {
+					return nil, err
+				}
+				if r == 0 || out[i].typ == nil {
+					name := fmt.Sprintf("column%d", i+1)
+					if i < len(fi.colNames) {
+						name = fi.colNames[i]
+					}
+					out[i] = colDesc{fi.alias, name, t}
+				}
+			}
+		}
+		for i := range out {
+			if out[i].typ == nil {
+				out[i].typ = tText // untyped literals resolve to text
+			}
+		}
+		if len(fi.colNames) > n {
+			return nil, errf("42P10", "table %q has %d columns available but %d columns specified", fi.alias, n, len(fi.colNames))
+		}
+		return out, nil
+	}
 	if fi.sub != nil {
 		cols, err := a.selectCols(fi.sub, outer)
 		if err != nil {
